@@ -1,7 +1,7 @@
 """C11 — primitive distance functions: global minimum (structural clauses)."""
 from . import scopes
 from ..core.report import DOMAIN_D
-from ..rules import features, degree, roles, mirror, runmin
+from ..rules import features, degree, roles, mirror, runmin, unpack
 
 
 def run(idx, rep, tier):
@@ -25,3 +25,4 @@ def run(idx, rep, tier):
     mirror.r_boxface(idx, rep)
     mods = [x.name for x in idx.lib_modules() if x.name.startswith("distance3d.distance")]
     degree.r_degree(idx, rep, modules=mods, floor=30)
+    unpack.r_unpack(idx, rep, floor=45)
